@@ -62,7 +62,7 @@ THEOREMS = [
     "Qentem.HashTable.sort_entries_perm",
     "Qentem.HashTable.Inv.keysNodup",
 ]
-OPEN = ["Qentem.Props.C13.sort_orders_keys (keys ascending after Sort: corollary of sort_entries_perm once C15's 'Memory::Sort returns an ordered array' is imported)"]
+OPEN = ["Qentem.Props.C13.sort_orders_keys (keys ascending after Sort): proved from C15's sortSeg_spec in notes/bridge-sort-c15.lean, which can only be built once agent/order is merged; on this branch the conditional form sort_orders_keys_partial is registered"]
 
 W = 1 << 32
 
